@@ -918,6 +918,9 @@ func Drive(w *ev.Writer, o Opts) {
 		if o.Tier == "thorough" && i == nX-1 {
 			n = []int{255, 254, 100}[o.Shard%3]
 		}
+		if i == 0 && k == 0 {
+			k = 2 // the first case of a shard may be bit-flipped: it needs an extended-action chain
+		}
 		tc := xCase(rng, next(), n, k)
 		r.runBody(tc)
 		body, addr := r.runSend(tc)
